@@ -340,7 +340,7 @@ func firstLines(s string, n int) string {
 func Run(r *fw.Run) {
 	scs := scen.All()
 	cfgs := []Config{{Gran: "ops", Mode: "deviations", Bound: 2, Only: nil}, {Gran: "sync", Mode: "deviations", Bound: 1, Only: nil}, {Gran: "ops", Mode: "preemptions", Bound: 1, Only: Small}, {Gran: "sync", Mode: "preemptions", Bound: 1, Only: Small}, {Gran: "ops", Mode: "deviations", Bound: 3, Only: Compact}}
-	perJob, total := 20*time.Second, 50*time.Second
+	perJob, total := 60*time.Second, 150*time.Second
 	if r.Thorough() {
 		cfgs = []Config{{Gran: "ops", Mode: "deviations", Bound: 3, Only: nil}, {Gran: "sync", Mode: "deviations", Bound: 2, Only: nil}, {Gran: "ops", Mode: "preemptions", Bound: 2, Only: Small}, {Gran: "sync", Mode: "preemptions", Bound: 1, Only: Small}, {Gran: "ops", Mode: "deviations", Bound: 4, Only: Compact}}
 		perJob, total = 15*time.Minute, 25*time.Minute
